@@ -2,12 +2,28 @@ import TinyVerif.Proofs.DlIndGlue
 /-!
 # `split_inuse_Spec`, `try_realloc_chunk_Spec` (tag `ra_`)
 
+Main results: `ra_split_inuse_spec : split_inuse_Spec`,
+`ra_try_realloc_chunk_spec : dispose_chunk_Spec → try_realloc_chunk_Spec`.
+
 ## A. `set_inuse` as table surgery
 `ra_set_inuse_w` (the header write over a window, then `orPin` at the end of the new chunk),
 `ra_orPin_stub` (the `orPin` on a word that holds no header inserts the header-less entry
 `{size := 0, pin := true}`), `ra_set_inuse_pair` (the two calls `set_inuse p nb; set_inuse (p+nb) rs` on a
 chunk of `nb + rs` bytes — the intermediate table violates `entsOk`), `ra_set_inuse_pair_rev` (the order
-`memalign` uses for the leader: second header first).
+`memalign` uses for the leader: second header first); later `ra_grow_exact` / `ra_grow_part` (the header
+swallows the free chunk after the user chunk, completely / partly), `ra_stub_inuse` / `ra_stub_free` (the
+header-less entry becomes an in-use / a free header).
+
+## B. `ra_UserAt` / `ra_user_parts`: what `User s p z` says about the table (header, successor with PINUSE);
+`ra_sinv_same`, `ra_user_same` (ghost trace).
+## C. `ra_wfs_inuse_window` (window replacement among in-use headers), `ra_split_core` (the split on the
+final table; `ra_SplitU` = the `User` delta of `split_inuse_Spec` plus "no user chunk started at `p + nb`"),
+`ra_split_inuse`, **`ra_split_inuse_spec`**.
+## D–F. neighbours (`ra_next_top`, `ra_next_free`, `ra_GrowAt`), `ra_resizeAtTab_window`, `ra_ResizedTo`,
+`ra_sinv_resizeTo`; table cores `ra_into_top_core`, `ra_merge_exhaust_core` (with `ra_Delisted`: the free chunk
+taken off the free list — `ra_delisted_dv`, `ra_delisted_unlink`), `ra_dv_split_core`.
+## G. the branches (`ra_shrink_split`, `ra_into_top`, `ra_into_dv_split`, `ra_grow_exhaust`,
+`ra_into_next_split` = virtual exhaust + split) and **`ra_try_realloc_chunk_spec`**.
 -/
 namespace TinyVerif.Dl
 
@@ -1018,5 +1034,624 @@ theorem ra_merge_exhaust_core {s : St} (hi : SInv s) {p z : Nat} {pre post : Lis
       · rw [hxc] at hc; cases hc
       · exact ⟨ny, by simp, ny1, ny2, ny3⟩
   exact ra_sinv_resizeTo hi w' hu hrt (by omega)
+
+/-- **`dv` split**: the user chunk grows into `dv`, the rest of `dv` stays `dv`:
+`[e, x, y] ↦ [np, nr, ny]` -/
+theorem ra_dv_split_core {s : St} (hi : SInv s) {p z nb : Nat} {pre post : List Ent} {e x y : Ent} {g : Seg}
+    (ga : ra_GrowAt s p z pre post e x y g) (hxd : x.addr = s.h.dv) (hxs : x.size = s.h.dvsize)
+    (hd0 : s.h.dv ≠ 0)
+    (hnb16 : nb % 16 = 0) (hlt : z < nb) (hfit : nb + 32 ≤ z + s.h.dvsize)
+    {H : Heap} {np nr ny : Ent}
+    (hH : HeapIs H (pre ++ [np, nr, ny] ++ post) s.h.sbins s.h.tbins (p + nb) (z + s.h.dvsize - nb) s.h.top s.h.topsize)
+    (np1 : np.addr = p) (np2 : np.size = nb) (np3 : np.cin = true) (np4 : np.pin = e.pin) (np5 : np.pfoot = e.pfoot)
+    (nr1 : nr.addr = p + nb) (nr2 : nr.size = z + s.h.dvsize - nb) (nr3 : nr.cin = false) (nr4 : nr.pin = true)
+    (ny1 : ny.addr = y.addr) (ny2 : ny.size = y.size) (ny3 : ny.cin = true) (ny4 : ny.pin = false)
+    (ny5 : ny.pfoot = z + s.h.dvsize - nb) :
+    SInv { s with h := H } ∧ ra_ResizedTo s { s with h := H } p nb := by
+  have w := hi.wfs
+  obtain ⟨u, hxf, hxt, hya, hgy, hyc, hyp, hyf⟩ := ga
+  have hu : User s p z := ⟨e, u.find w, u.ec, u.es, u.z8, u.er⟩
+  have hem := u.mem_e
+  have hxm := u.mem_y
+  have hea := u.ea
+  have hesz := u.es
+  have hxa := u.ya
+  have hp16 := u.p16
+  have hz16 := u.z16
+  have hes : s.h.ents = pre ++ [e, x, y] ++ post := by rw [u.hes]; simp
+  have hym : y ∈ s.h.ents := by rw [hes]; simp
+  obtain ⟨hxc, hxp⟩ := isFree_iff.1 hxf
+  obtain ⟨hx16, hxs16, hxsz⟩ := shapeOk_free w.shape hxm hxc
+  have hysh : y.addr % 16 = 0 ∧ y.size % 16 = 0 ∧ 16 ≤ y.size := by
+    rcases shapeOk_mem w.shape hym with h | h
+    · rw [hyp] at h; exact absurd h.2.2 (by decide)
+    · exact h
+  have hyfree : isFree y = false := by simp [isFree, hyc]
+  have hefree : isFree e = false := by simp [isFree, u.ec]
+  have hst0 : StructOk (pre ++ (e :: [x, y]) ++ post) s.segs s.h.top := by
+    have := w.struct; rw [hes] at this; exact this
+  have hg : g ∈ s.segs := u.hg
+  have hinside : ∀ q ∈ s.h.ents, q.addr ≠ p + nb :=
+    entsOk_no_inside w.ents hxm (a := p + nb) (by omega) (by omega)
+  obtain ⟨_, _, _, xtop, _, _, _, htes, hxta, _⟩ := w.top_parts (w.topsize_ne hg)
+  have hxtm : xtop ∈ s.h.ents := by rw [htes]; simp
+  have hrtop : p + nb ≠ s.h.top := fun heq => hinside xtop hxtm (by omega)
+  have hst : StructOk (pre ++ (np :: [nr, ny]) ++ post) s.segs s.h.top :=
+    struct_window hst0 w.segsDisjoint hg
+      (by
+        intro q hq
+        simp only [List.mem_cons, List.not_mem_nil, or_false] at hq
+        rcases hq with rfl | rfl | rfl
+        · exact u.ge
+        · exact u.gy
+        · exact hgy)
+      (by simp only [contig, Bool.and_eq_true, decide_eq_true_eq, Bool.and_true]; omega)
+      (by simp only [endE, lastE]; omega)
+      (by
+        simp only [shapeOk, List.all_cons, List.all_nil, Bool.and_true, Bool.and_eq_true, Bool.or_eq_true,
+          decide_eq_true_eq]
+        exact ⟨Or.inr ⟨⟨by omega, by omega⟩, by omega⟩, Or.inr ⟨⟨by omega, by omega⟩, by omega⟩,
+          Or.inr ⟨⟨by omega, by omega⟩, by omega⟩⟩)
+      (by simp only [lastE, isTrailerEnd, hyc, hyp, ny2, ny3, ny4]; exact id)
+      (fun _ _ => Iff.rfl)
+      ⟨np4, fun _ => ⟨by rw [np3, u.ec], np5⟩⟩
+      ⟨by simp only [lastE]; rw [ny3, hyc], fun hf => by simp [lastE, isFree, ny3] at hf⟩
+      (by simp [tagsFrom, linkOk, isFree, np3, nr1, nr2, nr3, nr4, ny3, ny4, ny5, hrtop])
+  have hok' : entsOk H.ents = true := by rw [hH.ents]; exact hst.ents
+  have hne : s.segs ≠ [] := fun h => by rw [h] at hg; cases hg
+  have fs1 : freeSet [e, x, y] = [s.h.dv] := by simp [freeSet, List.filter, hxf, hyfree, hefree, hxd]
+  have fs2 : freeSet [np, nr, ny] = [p + nb] := by
+    simp [freeSet, List.filter, isFree, np3, nr3, nr4, ny3, nr1]
+  have hfnr : findEnt H.ents (p + nb) = some nr := by
+    rw [hH.ents, ← nr1]; exact entsOk_find nr (by simp) hst.ents
+  have hfreemid : ∀ q ∈ [e, x, y], isFree q = true → q.addr = s.h.top ∨ q.addr = s.h.dv := by
+    intro q hq hf
+    simp only [List.mem_cons, List.not_mem_nil, or_false] at hq
+    rcases hq with rfl | rfl | rfl
+    · rw [hefree] at hf; cases hf
+    · exact Or.inr hxd
+    · rw [hyfree] at hf; cases hf
+  have w' : WFS { s with h := H } := by
+    refine wfs_of_parts w (by rw [hH.ents, hH.top]; exact hst) ?_ ?_ ?_ ?_ ?_
+    · refine freeListOk_replace w hes hH.ents hok' (A := if s.h.top = 0 then [] else [s.h.top]) (B := binned s.h)
+        ?_ ?_ (by rw [fs2]; simp) ?_
+      · rw [fs1]; exact freeList_dv hd0
+      · rw [fs2, freeList_dv (by rw [hH.dv]; omega), hH.top, hH.dv, binned_congr hH.sbins hH.tbins]
+      · intro a ha
+        rw [fs2, List.mem_singleton] at ha
+        subst ha
+        have := w.not_listed hinside
+        rw [freeList_dv hd0] at this
+        exact not_mem_mid this
+    · exact (bins_window w hes hH.ents hok' hH.sbins hH.tbins hfreemid).1
+    · exact (bins_window w hes hH.ents hok' hH.sbins hH.tbins hfreemid).2
+    · unfold dvOk
+      rw [hH.dv, hH.dvsize, if_neg (by omega), hfnr]
+      simp [isFree, nr2, nr3, nr4]; omega
+    · refine topOk_window w hes hH.ents hok' hne hH.top hH.topsize ?_
+      intro q hq
+      simp only [List.mem_cons, List.not_mem_nil, or_false] at hq
+      rcases hq with rfl | rfl | rfl
+      · exact ⟨fun hf => (by rw [hefree] at hf; cases hf), Or.inl u.ec⟩
+      · exact ⟨fun _ => hxt, Or.inr hxp⟩
+      · exact ⟨fun hf => (by rw [hyfree] at hf; cases hf), Or.inl hyc⟩
+  have hrt : ResizeAtTab s.h.ents H.ents p nb := by
+    rw [hes, hH.ents]
+    refine ra_resizeAtTab_window hst.ents ?_ ⟨np, by simp, np1, np3, np2⟩ ?_
+    · intro q hq hc
+      simp only [List.mem_cons, List.not_mem_nil, or_false] at hq
+      rcases hq with rfl | rfl | rfl
+      · exact Or.inl np1
+      · rw [nr3] at hc; cases hc
+      · exact Or.inr ⟨y, by simp, hyc, ny1.symm⟩
+    · intro q hq hc hne
+      simp only [List.mem_cons, List.not_mem_nil, or_false] at hq
+      rcases hq with rfl | rfl | rfl
+      · exact absurd hea hne
+      · rw [hxc] at hc; cases hc
+      · exact ⟨ny, by simp, ny1, ny2, ny3⟩
+  exact ra_sinv_resizeTo hi w' hu hrt (by omega)
+
+
+/-- `set_inuse p nb` on a user chunk followed by the header `x`, with `nb` = both sizes together: the
+header swallows `x`, `orPin` hits the header `y` after `x` -/
+theorem ra_grow_exact {h h1 : Heap} {pre post : List Ent} {e x y : Ent} {nb : Nat}
+    (e1 : set_inuse h e.addr nb = .ok h1) (hes : h.ents = pre ++ e :: x :: y :: post)
+    (hok : entsOk h.ents = true) (hxa : x.addr = e.addr + e.size) (hya : y.addr = x.addr + x.size)
+    (hnb : nb = e.size + x.size) :
+    h1 = { h with ents := pre ++ [{ addr := e.addr, size := nb, cin := true, pin := e.pin, pfoot := e.pfoot },
+      { y with pin := true }] ++ post } := by
+  have hok1 : entsOk (pre ++ e :: x :: y :: post) = true := by rw [hes] at hok; exact hok
+  have hok2 : entsOk ((pre ++ [e]) ++ x :: y :: post) = true := by simpa using hok1
+  obtain ⟨o1, o2, o3, o4, o5⟩ := entsOk_mid2 hok1
+  obtain ⟨_, _, q3, q4, q5⟩ := entsOk_mid2 hok2
+  have hfe : findEnt h.ents e.addr = some e := entsOk_find e (by rw [hes]; simp) hok
+  have r1 := ra_set_inuse_w e1 (pre := pre) (ms := [e, x]) (post := y :: post) (by rw [hes]; simp)
+    (by intro q hq; exact (o1 q hq).2)
+    (by
+      intro q hq
+      simp only [List.mem_cons, List.not_mem_nil, or_false] at hq
+      rcases hq with rfl | rfl <;> omega)
+    (by
+      intro q hq
+      cases hq with
+      | head => omega
+      | tail _ hq => have := q5 q hq; omega)
+  rw [ra_pinAt_some hfe, pfootAt_some hfe, show e.addr + nb = y.addr by omega] at r1
+  rw [orPin_at (pre := pre ++ [{ addr := e.addr, size := nb, cin := true, pin := e.pin, pfoot := e.pfoot }])
+    (x := y) (post := post) (by simp)
+    (by
+      intro q hq
+      rcases List.mem_append.1 hq with hq | hq
+      · have := o1 q hq; omega
+      · simp only [List.mem_singleton] at hq; subst hq; simp only; omega)] at r1
+  rw [r1]
+  simp
+
+/-- `set_inuse p nb` with `nb` ending strictly inside `x`: the header swallows `x`, `orPin` leaves the
+header-less entry at `p + nb` -/
+theorem ra_grow_part {h h1 : Heap} {pre post : List Ent} {e x y : Ent} {nb : Nat}
+    (e1 : set_inuse h e.addr nb = .ok h1) (hes : h.ents = pre ++ e :: x :: y :: post)
+    (hok : entsOk h.ents = true) (hxa : x.addr = e.addr + e.size) (hya : y.addr = x.addr + x.size)
+    (hlt : e.size < nb) (hfit : nb < e.size + x.size) :
+    h1 = { h with ents := pre ++ [{ addr := e.addr, size := nb, cin := true, pin := e.pin, pfoot := e.pfoot },
+      { addr := e.addr + nb, size := 0, cin := false, pin := true, pfoot := 0 }] ++ y :: post } := by
+  have hok1 : entsOk (pre ++ e :: x :: y :: post) = true := by rw [hes] at hok; exact hok
+  have hok2 : entsOk ((pre ++ [e]) ++ x :: y :: post) = true := by simpa using hok1
+  obtain ⟨o1, o2, o3, o4, o5⟩ := entsOk_mid2 hok1
+  obtain ⟨_, _, q3, q4, q5⟩ := entsOk_mid2 hok2
+  have hfe : findEnt h.ents e.addr = some e := entsOk_find e (by rw [hes]; simp) hok
+  have r1 := ra_set_inuse_w e1 (pre := pre) (ms := [e, x]) (post := y :: post) (by rw [hes]; simp)
+    (by intro q hq; exact (o1 q hq).2)
+    (by
+      intro q hq
+      simp only [List.mem_cons, List.not_mem_nil, or_false] at hq
+      rcases hq with rfl | rfl <;> omega)
+    (by
+      intro q hq
+      cases hq with
+      | head => omega
+      | tail _ hq => have := q5 q hq; omega)
+  rw [ra_pinAt_some hfe, pfootAt_some hfe] at r1
+  rw [ra_orPin_stub (pre := pre ++ [{ addr := e.addr, size := nb, cin := true, pin := e.pin, pfoot := e.pfoot }])
+    (post := y :: post) (by simp)
+    (by
+      intro q hq
+      rcases List.mem_append.1 hq with hq | hq
+      · have := o1 q hq; omega
+      · simp only [List.mem_singleton] at hq; subst hq; simp only; omega)
+    (by
+      intro q hq
+      cases hq with
+      | head => omega
+      | tail _ hq => have := q5 q hq; omega)] at r1
+  rw [r1]
+  simp
+
+/-- the header-less entry becomes an in-use header (`set_inuse` of the remainder) -/
+theorem ra_stub_inuse {h h2 : Heap} {pre post : List Ent} {np y : Ent} {a rs : Nat}
+    (e2 : set_inuse h a rs = .ok h2)
+    (hes : h.ents = pre ++ [np, { addr := a, size := 0, cin := false, pin := true, pfoot := 0 }] ++ y :: post)
+    (hpre : ∀ q ∈ pre, q.addr < a) (hnp : np.addr < a) (hya : y.addr = a + rs) (hrs : 0 < rs)
+    (hpost : ∀ q ∈ post, y.addr < q.addr) :
+    h2 = { h with ents := pre ++ [np, { addr := a, size := rs, cin := true, pin := true, pfoot := 0 },
+      { y with pin := true }] ++ post } := by
+  have hpre' : ∀ q ∈ pre ++ [np], q.addr < a := by
+    intro q hq
+    rcases List.mem_append.1 hq with hq | hq
+    · exact hpre q hq
+    · simp only [List.mem_singleton] at hq; subst hq; exact hnp
+  have hfs : findEnt h.ents a = some { addr := a, size := 0, cin := false, pin := true, pfoot := 0 } := by
+    rw [hes, show pre ++ [np, ({ addr := a, size := 0, cin := false, pin := true, pfoot := 0 } : Ent)] ++ y :: post =
+      (pre ++ [np]) ++ ({ addr := a, size := 0, cin := false, pin := true, pfoot := 0 } : Ent) :: y :: post by simp,
+      ra_findEnt_pre hpre']
+    exact findEnt_head
+  have r2 := ra_set_inuse_w e2 (pre := pre ++ [np])
+    (ms := [{ addr := a, size := 0, cin := false, pin := true, pfoot := 0 }]) (post := y :: post)
+    (by rw [hes]; simp) hpre'
+    (by intro q hq; simp only [List.mem_singleton] at hq; subst hq; simp only; omega)
+    (by
+      intro q hq
+      cases hq with
+      | head => omega
+      | tail _ hq => have := hpost q hq; omega)
+  rw [ra_pinAt_some hfs, pfootAt_some hfs, ← hya] at r2
+  rw [orPin_at (pre := pre ++ [np, { addr := a, size := rs, cin := true, pin := true, pfoot := 0 }])
+    (x := y) (post := post) (by simp)
+    (by
+      intro q hq
+      simp only [List.mem_append, List.mem_cons, List.not_mem_nil, or_false] at hq
+      rcases hq with hq | hq | hq
+      · have := hpre q hq; omega
+      · subst hq; omega
+      · subst hq; simp only; omega)] at r2
+  rw [r2]
+  simp
+
+/-- the header-less entry becomes the header of a free chunk (`set_size_and_pinuse_of_free_chunk` of the
+remainder, then `clear_pinuse` of the header after it) -/
+theorem ra_stub_free {h h2 h3 : Heap} {pre post : List Ent} {np y : Ent} {a rs : Nat}
+    (e2 : set_size_and_pinuse_of_free_chunk h a rs = .ok h2) (e3 : clearPin h2 (a + rs) = .ok h3)
+    (hes : h.ents = pre ++ [np, { addr := a, size := 0, cin := false, pin := true, pfoot := 0 }] ++ y :: post)
+    (hpre : ∀ q ∈ pre, q.addr < a) (hnp : np.addr < a) (hya : y.addr = a + rs) (hrs : 0 < rs)
+    (hpost : ∀ q ∈ post, y.addr < q.addr) :
+    h3 = { h with ents := pre ++ [np, { addr := a, size := rs, cin := false, pin := true, pfoot := 0 },
+      { y with pfoot := rs, pin := false }] ++ post } := by
+  have hpre' : ∀ q ∈ pre ++ [np], q.addr < a := by
+    intro q hq
+    rcases List.mem_append.1 hq with hq | hq
+    · exact hpre q hq
+    · simp only [List.mem_singleton] at hq; subst hq; exact hnp
+  have hfs : findEnt h.ents a = some { addr := a, size := 0, cin := false, pin := true, pfoot := 0 } := by
+    rw [hes, show pre ++ [np, ({ addr := a, size := 0, cin := false, pin := true, pfoot := 0 } : Ent)] ++ y :: post =
+      (pre ++ [np]) ++ ({ addr := a, size := 0, cin := false, pin := true, pfoot := 0 } : Ent) :: y :: post by simp,
+      ra_findEnt_pre hpre']
+    exact findEnt_head
+  unfold set_size_and_pinuse_of_free_chunk at e2
+  msimp at e2
+  obtain ⟨h1, e1, e2⟩ := e2
+  have r1 := writeHead_window_ok e1 (pre := pre ++ [np])
+    (ms := [{ addr := a, size := 0, cin := false, pin := true, pfoot := 0 }]) (post := y :: post)
+    (by rw [hes]; simp) hpre'
+    (by intro q hq; simp only [List.mem_singleton] at hq; subst hq; simp only; omega)
+    (by
+      intro q hq
+      cases hq with
+      | head => omega
+      | tail _ hq => have := hpost q hq; omega)
+  rw [pfootAt_some hfs] at r1
+  subst r1
+  have hpre2 : ∀ q ∈ pre ++ [np, { addr := a, size := rs, cin := false, pin := true, pfoot := 0 }], q.addr ≠ y.addr := by
+    intro q hq
+    simp only [List.mem_append, List.mem_cons, List.not_mem_nil, or_false] at hq
+    rcases hq with hq | hq | hq
+    · have := hpre q hq; omega
+    · subst hq; omega
+    · subst hq; simp only; omega
+  have r2 := setFoot_at_ok e2 (pre := pre ++ [np, { addr := a, size := rs, cin := false, pin := true, pfoot := 0 }])
+    (x := y) (post := post) (by simp) hya hpre2
+  subst r2
+  have r3 := clearPin_at_ok e3 (pre := pre ++ [np, { addr := a, size := rs, cin := false, pin := true, pfoot := 0 }])
+    (x := { y with pfoot := rs }) (post := post) (by simp) hya hpre2
+  rw [r3]
+  simp
+
+
+
+/-! ## G. the branches of `try_realloc_chunk` -/
+
+theorem ra_resized_of_split_freed {s s2 s2' s3 : St} {p nb rs : Nat} (sp : ra_SplitU s s2 p nb rs)
+    (hsame : ∀ a z, User s2' a z ↔ User s2 a z) (fr : Freed s2' s3 (p + nb + 16)) (hnb : 0 < nb) :
+    ra_ResizedTo s s3 p nb := by
+  intro a z
+  rw [fr a z, hsame a z, sp.2 a z, show p + nb + 16 - 16 = p + nb by omega]
+  constructor
+  · rintro ⟨(h | h | h), hne⟩
+    · exact Or.inl h
+    · exact Or.inr h
+    · exact absurd h.1 hne
+  · rintro (⟨h1, h2⟩ | ⟨h1, h2⟩)
+    · refine ⟨Or.inl ⟨h1, h2⟩, ?_⟩
+      intro heq
+      subst heq
+      exact sp.1 z h2
+    · exact ⟨Or.inr (Or.inl ⟨h1, h2⟩), by omega⟩
+
+theorem ra_splitU_of_resizedTo {s s1 s2 : St} {p sz nb rs : Nat} (rt : ra_ResizedTo s s1 p sz)
+    (sp : ra_SplitU s1 s2 p nb rs) (hnb : 0 < nb) : ra_SplitU s s2 p nb rs := by
+  refine ⟨?_, ?_⟩
+  · intro z hz
+    exact sp.1 z ((rt _ _).2 (Or.inl ⟨by omega, hz⟩))
+  · intro a z
+    rw [sp.2 a z]
+    constructor
+    · rintro (⟨h1, h2⟩ | h)
+      · rcases (rt a z).1 h2 with ⟨_, h3⟩ | ⟨h3, _⟩
+        · exact Or.inl ⟨h1, h3⟩
+        · exact absurd h3 h1
+      · exact Or.inr h
+    · rintro (⟨h1, h2⟩ | h)
+      · exact Or.inl ⟨h1, (rt a z).2 (Or.inl ⟨h1, h2⟩)⟩
+      · exact Or.inr h
+
+/-- after a split: `dispose_chunk` of the remainder (called on the tagged heap) -/
+theorem ra_split_dispose (hd : dispose_chunk_Spec) {s : St} {h2 h3 : Heap} {p nb rs : Nat} {t : String}
+    (i2 : SInv { s with h := h2 }) (sp : ra_SplitU s { s with h := h2 } p nb rs) (hnb : 0 < nb)
+    (e3 : dispose_chunk (h2.tag t) (p + nb) rs = .ok h3) :
+    SInv { s with h := h3 } ∧ ra_ResizedTo s { s with h := h3 } p nb := by
+  have i2t : SInv { s with h := h2.tag t } := ra_sinv_same (s := { s with h := h2 }) i2 (ra_sameHeap_tag h2 t)
+  have hsame : ∀ a z, User { s with h := h2.tag t } a z ↔ User { s with h := h2 } a z :=
+    fun a z => ra_user_same (s := { s with h := h2 }) (H := h2.tag t) rfl a z
+  have hut : User { s with h := h2.tag t } (p + nb) rs :=
+    (hsame _ _).2 ((sp.2 _ _).2 (Or.inr (Or.inr ⟨rfl, rfl⟩)))
+  obtain ⟨i3, fr⟩ := hd (s := { s with h := h2.tag t }) i2t hut e3
+  exact ⟨i3, ra_resized_of_split_freed sp hsame fr hnb⟩
+
+/-- `realloc-shrink-split` -/
+theorem ra_shrink_split (hd : dispose_chunk_Spec) {s : St} (hi : SInv s) {p nb z : Nat} (hu : User s p z)
+    (hnb : NbOk nb) (hle : nb ≤ z) (hge : 32 ≤ z - nb) {h1 h2 h3 : Heap} {t : String}
+    (e1 : set_inuse s.h p nb = .ok h1) (e2 : set_inuse h1 (p + nb) (z - nb) = .ok h2)
+    (e3 : dispose_chunk (h2.tag t) (p + nb) (z - nb) = .ok h3) :
+    SInv { s with h := h3 } ∧ Resized s { s with h := h3 } p nb := by
+  obtain ⟨pre, post, e, y, g, u⟩ := ra_user_parts hi.wfs hu
+  have hz16 := u.z16
+  have hu' : User s p (nb + (z - nb)) := by rw [show nb + (z - nb) = z by omega]; exact hu
+  obtain ⟨i2, sp⟩ := ra_split_inuse hi hu' hnb.1 (by have := hnb.2.1; omega) (by have := hnb.1; omega) (by omega) e1 e2
+  obtain ⟨r1, r2⟩ := ra_split_dispose hd i2 sp (by have := hnb.2.1; omega) e3
+  exact ⟨r1, r2.resized (Nat.le_refl nb)⟩
+
+/-- the header at `dv` -/
+theorem ra_dv_at {s : St} (w : WFS s) {x : Ent} (hx : x ∈ s.h.ents) (hxa : x.addr = s.h.dv) :
+    isFree x = true ∧ x.size = s.h.dvsize ∧ 32 ≤ s.h.dvsize ∧ s.h.dv ≠ 0 := by
+  have hpos := w.addr_pos hx
+  have hd0 : s.h.dv ≠ 0 := by omega
+  have hd := w.dv
+  unfold dvOk at hd
+  rw [if_neg hd0, ← hxa, entsOk_find x hx w.ents] at hd
+  simp only [Bool.and_eq_true, decide_eq_true_eq] at hd
+  exact ⟨hd.1.1, hd.1.2, hd.2, hd0⟩
+
+/-- `realloc-into-dv-split` -/
+theorem ra_into_dv_split {s : St} (hi : SInv s) {p nb z : Nat} (hu : User s p z) (hnb16 : nb % 16 = 0)
+    (hlt : z < nb) (hnt : p + z ≠ s.h.top) (hdv : p + z = s.h.dv) (hfit : nb + 32 ≤ z + s.h.dvsize)
+    {h1 h2 h3 H : Heap} (e1 : set_inuse s.h p nb = .ok h1)
+    (e2 : set_size_and_pinuse_of_free_chunk h1 (p + nb) (z + s.h.dvsize - nb) = .ok h2)
+    (e3 : clearPin h2 (p + nb + (z + s.h.dvsize - nb)) = .ok h3)
+    (hH : HeapIs H h3.ents h3.sbins h3.tbins (p + nb) (z + s.h.dvsize - nb) h3.top h3.topsize) :
+    SInv { s with h := H } ∧ ra_ResizedTo s { s with h := H } p nb := by
+  have w := hi.wfs
+  obtain ⟨pre, post, e, x, g, u⟩ := ra_user_parts w hu
+  obtain ⟨hxf, hxs, hd32, hd0⟩ := ra_dv_at w u.mem_y (by rw [u.ya, hdv])
+  obtain ⟨y, post', hp, ga⟩ := ra_grow_parts w u hxf (by rw [u.ya]; exact hnt)
+  subst hp
+  have hea := u.ea
+  have hesz := u.es
+  have hxa := u.ya
+  have hya := ga.ya
+  subst hea
+  have hok := w.ents
+  rw [u.hes] at hok
+  have hok2 : entsOk ((pre ++ [e, x]) ++ y :: post') = true := by simpa using hok
+  obtain ⟨o1, _, _, _, _⟩ := entsOk_mid2 hok
+  have b2 := entsOk_head_le (entsOk_append.1 hok2).2.1
+  have r1 := ra_grow_part e1 u.hes w.ents (by omega) hya (by omega) (by omega)
+  subst r1
+  have r3 := ra_stub_free e2 e3 (pre := pre) (post := post') (y := y)
+    (np := { addr := e.addr, size := nb, cin := true, pin := e.pin, pfoot := e.pfoot }) rfl
+    (by intro q hq; have := o1 q hq; omega) (by simp only; omega) (by omega) (by omega)
+    (by intro q hq; have := b2 q hq; have := entsOk_pos w.ents y (by rw [u.hes]; simp); omega)
+  subst r3
+  obtain ⟨i1, i2, i3, i4, i5, i6, i7⟩ := hH
+  exact ra_dv_split_core hi ga (by omega) hxs hd0 hnb16 hlt hfit
+    (np := { addr := e.addr, size := nb, cin := true, pin := e.pin, pfoot := e.pfoot })
+    (nr := { addr := e.addr + nb, size := z + s.h.dvsize - nb, cin := false, pin := true, pfoot := 0 })
+    (ny := { y with pfoot := z + s.h.dvsize - nb, pin := false })
+    ⟨i1, i2, i3, i4, i5, i6, i7⟩ rfl rfl rfl rfl rfl rfl rfl rfl rfl rfl rfl ga.yc rfl rfl
+
+/-- `realloc-into-dv-exhaust` and `realloc-into-next-exhaust`: the header write on a heap `h0` that has the
+table of `s.h` and from whose free list the chunk after the user chunk has been taken -/
+theorem ra_grow_exhaust {s : St} (hi : SInv s) {p z : Nat} {pre post : List Ent} {e x y : Ent} {g : Seg}
+    (ga : ra_GrowAt s p z pre post e x y g) {h0 h1 H : Heap} (h0e : h0.ents = s.h.ents)
+    (e1 : set_inuse h0 p (z + x.size) = .ok h1) (hH : H.ents = h1.ents) (hD : ra_Delisted s H x.addr) :
+    SInv { s with h := H } ∧ ra_ResizedTo s { s with h := H } p (z + x.size) := by
+  have w := hi.wfs
+  have u := ga.u
+  have hea := u.ea
+  have hesz := u.es
+  have hxa := u.ya
+  subst hea
+  have r1 := ra_grow_exact e1 (by rw [h0e]; exact u.hes) (by rw [h0e]; exact w.ents) (by omega) ga.ya (by omega)
+  subst r1
+  exact ra_merge_exhaust_core hi ga
+    (np := { addr := e.addr, size := z + x.size, cin := true, pin := e.pin, pfoot := e.pfoot })
+    (ny := { y with pin := true }) hH hD rfl rfl rfl rfl rfl rfl rfl ga.yc rfl
+
+/-- `realloc-into-next-split`: the merged chunk is split again; seen as `exhaust` (a state that is never
+materialised) followed by a split -/
+theorem ra_into_next_split (hd : dispose_chunk_Spec) {s : St} (hi : SInv s) {p z nb : Nat} {pre post : List Ent}
+    {e x y : Ent} {g : Seg} (ga : ra_GrowAt s p z pre post e x y g) (hcd : x.addr ≠ s.h.dv)
+    (hnb16 : nb % 16 = 0) (hnb : 16 ≤ nb) (hlt : z < nb) (hfit : nb + 16 ≤ z + x.size)
+    {h0 h1 h2 h3 : Heap} {t : String} (e0 : unlink_chunk s.h x.addr x.size = .ok h0)
+    (e1 : set_inuse h0 p nb = .ok h1) (e2 : set_inuse h1 (p + nb) (z + x.size - nb) = .ok h2)
+    (e3 : dispose_chunk (h2.tag t) (p + nb) (z + x.size - nb) = .ok h3) :
+    SInv { s with h := h3 } ∧ Resized s { s with h := h3 } p nb := by
+  have w := hi.wfs
+  have u := ga.u
+  have hea := u.ea
+  have hesz := u.es
+  have hxa := u.ya
+  have hya := ga.ya
+  have hz16 := u.z16
+  have hp16 := u.p16
+  subst hea
+  have fr := unlink_chunk_frame e0
+  obtain ⟨hxc, hxp⟩ := isFree_iff.1 ga.xf
+  obtain ⟨hx16, hxs16, hxsz⟩ := shapeOk_free w.shape u.mem_y hxc
+  have hok := w.ents
+  rw [u.hes] at hok
+  have hok2 : entsOk ((pre ++ [e, x]) ++ y :: post) = true := by simpa using hok
+  obtain ⟨o1, _, _, _, _⟩ := entsOk_mid2 hok
+  have b2 := entsOk_head_le (entsOk_append.1 hok2).2.1
+  -- the two header writes
+  have r1 := ra_grow_part e1 (by rw [fr.ents]; exact u.hes) (by rw [fr.ents]; exact w.ents) (by omega) hya
+    (by omega) (by omega)
+  subst r1
+  have r2 := ra_stub_inuse e2 (pre := pre) (post := post) (y := y)
+    (np := { addr := e.addr, size := nb, cin := true, pin := e.pin, pfoot := e.pfoot }) rfl
+    (by intro q hq; have := o1 q hq; omega) (by simp only; omega) (by omega) (by omega)
+    (by intro q hq; have := b2 q hq; have := entsOk_pos w.ents y (by rw [u.hes]; simp); omega)
+  -- the virtual state after `exhaust`
+  obtain ⟨i1, rt1⟩ := ra_merge_exhaust_core hi ga
+    (H := { h0 with ents := pre ++ [{ addr := e.addr, size := z + x.size, cin := true, pin := e.pin, pfoot := e.pfoot },
+      { y with pin := true }] ++ post })
+    (np := { addr := e.addr, size := z + x.size, cin := true, pin := e.pin, pfoot := e.pfoot })
+    (ny := { y with pin := true }) rfl (ra_delisted_unlink w e0 hcd rfl rfl rfl rfl rfl rfl)
+    rfl rfl rfl rfl rfl rfl rfl ga.yc rfl
+  have hge := inSeg_iff.1 u.ge
+  have hgy := inSeg_iff.1 ga.gy
+  have u1 : ra_UserAt { s with h := { h0 with ents := pre ++
+      [{ addr := e.addr, size := z + x.size, cin := true, pin := e.pin, pfoot := e.pfoot }, { y with pin := true }] ++ post } }
+      e.addr (nb + (z + x.size - nb)) pre post
+      { addr := e.addr, size := z + x.size, cin := true, pin := e.pin, pfoot := e.pfoot } { y with pin := true } g :=
+    ⟨by simp, rfl, by simp only; omega, rfl, (gl_isRecord_addr (segs := s.segs) (e := e) rfl).trans u.er, by omega, hp16,
+      by omega, by omega, u.hg, inSeg_iff.2 hge, inSeg_iff.2 hgy, by simp only; omega, rfl⟩
+  obtain ⟨i2, sp1⟩ := ra_split_core i1 u1 hnb16 hnb (by omega) (by omega) (H := h2)
+    (by rw [r2]; exact ⟨rfl, rfl, rfl, rfl, rfl, rfl, rfl⟩)
+  obtain ⟨r1, r2⟩ := ra_split_dispose hd i2 (ra_splitU_of_resizedTo rt1 sp1 (by omega)) (by omega) e3
+  exact ⟨r1, r2.resized (Nat.le_refl nb)⟩
+
+/-- `set_inuse` changes the header table only -/
+theorem ra_set_inuse_fields {h h' : Heap} {a sz : Nat} (e : set_inuse h a sz = .ok h') :
+    h'.sbins = h.sbins ∧ h'.tbins = h.tbins ∧ h'.dv = h.dv ∧ h'.dvsize = h.dvsize ∧ h'.top = h.top ∧
+      h'.topsize = h.topsize := by
+  unfold set_inuse at e
+  dsimp only at e
+  msimp at e
+  obtain ⟨h1, e1, e2⟩ := e
+  unfold writeHead at e1
+  split at e1
+  · msimp at e1
+  · msimp at e1
+    subst e1
+    subst e2
+    unfold orPin
+    dsimp only
+    split <;> exact ⟨rfl, rfl, rfl, rfl, rfl, rfl⟩
+
+/-- **`try_realloc_chunk_Spec`** (given `dispose_chunk_Spec`) -/
+theorem ra_try_realloc_chunk_spec (hd : dispose_chunk_Spec) : try_realloc_chunk_Spec := by
+  intro s hi p nb z h' hu hnb hh
+  have w := hi.wfs
+  obtain ⟨pre, post, e, x, g, u⟩ := ra_user_parts w hu
+  have hnb16 := hnb.1
+  have hnb32 := hnb.2.1
+  unfold try_realloc_chunk at hh
+  dsimp only at hh
+  msimp at hh
+  obtain ⟨e0, he0, _, _, hh⟩ := hh
+  have := getE_spec he0
+  rw [u.find w] at this
+  injection this with this
+  subst this
+  have hesz := u.es
+  subst hesz
+  rw [MIN_CHUNK_SIZE_eq] at hh
+  split at hh
+  · rename_i hge
+    split at hh
+    · -- shrink-split
+      rename_i hrs
+      msimp at hh
+      obtain ⟨h1, e1, h2, e2, h3, e3, hh⟩ := hh
+      injection hh with hh
+      subst hh
+      exact ra_shrink_split hd hi hu hnb hge hrs e1 e2 e3
+    · -- shrink-keep
+      msimp at hh
+      injection hh with hh
+      subst hh
+      refine ⟨ra_sinv_same hi (ra_sameHeap_tag _ _), e.size, hge, ?_⟩
+      intro a z'
+      rw [ra_user_same (H := s.h.tag "realloc-shrink-keep") rfl a z']
+      constructor
+      · intro h
+        by_cases hap : a = p
+        · subst hap; exact Or.inr ⟨rfl, gl_user_size h hu⟩
+        · exact Or.inl ⟨hap, h⟩
+      · rintro (⟨_, h⟩ | ⟨h1, h2⟩)
+        · exact h
+        · subst h1; subst h2; exact hu
+  · rename_i hlt
+    split at hh
+    · rename_i ht
+      split at hh
+      · msimp at hh
+        cases hh
+      · -- into-top
+        rename_i hfit
+        msimp at hh
+        obtain ⟨h1, e1, h2, e2, hh⟩ := hh
+        injection hh with hh
+        subst hh
+        obtain ⟨r1, r2⟩ := ra_into_top hi hu hnb16 (by omega) (by omega) ht e1 e2
+          (H := ({ h2 with top := p + nb, topsize := e.size + s.h.topsize - nb } : Heap).tag "realloc-into-top")
+          ⟨rfl, rfl, rfl, rfl, rfl, rfl, rfl⟩
+        exact ⟨r1, r2.resized (Nat.le_refl nb)⟩
+    · rename_i hnt
+      split at hh
+      · rename_i hdv
+        split at hh
+        · msimp at hh
+          cases hh
+        · rename_i hfit
+          split at hh
+          · -- into-dv-split
+            rename_i hds
+            msimp at hh
+            obtain ⟨h1, e1, h2, e2, h3, e3, hh⟩ := hh
+            injection hh with hh
+            subst hh
+            obtain ⟨r1, r2⟩ := ra_into_dv_split hi hu hnb16 (by omega) hnt hdv (by omega) e1 e2 e3
+              (H := ({ h3 with dvsize := e.size + s.h.dvsize - nb, dv := p + nb } : Heap).tag "realloc-into-dv-split")
+              ⟨rfl, rfl, rfl, rfl, rfl, rfl, rfl⟩
+            exact ⟨r1, r2.resized (Nat.le_refl nb)⟩
+          · -- into-dv-exhaust
+            msimp at hh
+            obtain ⟨h1, e1, hh⟩ := hh
+            injection hh with hh
+            subst hh
+            obtain ⟨hxf, hxs, hd32, hd0⟩ := ra_dv_at w u.mem_y (by rw [u.ya, hdv])
+            obtain ⟨y, post', hp, ga⟩ := ra_grow_parts w u hxf (by rw [u.ya]; exact hnt)
+            subst hp
+            rw [← hxs] at e1
+            have hxd : x.addr = s.h.dv := by rw [u.ya, hdv]
+            obtain ⟨f1, f2, f3, f4, f5, f6⟩ := ra_set_inuse_fields e1
+            obtain ⟨r1, r2⟩ := ra_grow_exhaust hi ga (h0 := s.h) rfl e1
+              (H := ({ h1 with dvsize := 0, dv := 0 } : Heap).tag "realloc-into-dv-exhaust") rfl
+              (by rw [hxd]; exact ra_delisted_dv w hd0 f1 f2 f5 f6 rfl rfl)
+            exact ⟨r1, r2.resized (by omega)⟩
+      · rename_i hndv
+        msimp at hh
+        obtain ⟨en, hen, hh⟩ := hh
+        have hfx : findEnt s.h.ents (p + e.size) = some x := by rw [← u.ya]; exact entsOk_find x u.mem_y w.ents
+        have := getE_spec hen
+        rw [hfx] at this
+        injection this with this
+        subst this
+        split at hh
+        · rename_i hcin
+          have hxf : isFree x = true := by
+            simp only [Bool.not_eq_true'] at hcin
+            exact isFree_iff.2 ⟨hcin, u.yp⟩
+          obtain ⟨y, post', hp, ga⟩ := ra_grow_parts w u hxf (by rw [u.ya]; exact hnt)
+          subst hp
+          have hcd : x.addr ≠ s.h.dv := by rw [u.ya]; exact hndv
+          split at hh
+          · msimp at hh
+            cases hh
+          · rename_i hfit
+            msimp at hh
+            obtain ⟨h0, e0', hh⟩ := hh
+            rw [← u.ya] at e0'
+            split at hh
+            · -- into-next-exhaust
+              msimp at hh
+              obtain ⟨h1, e1, hh⟩ := hh
+              injection hh with hh
+              subst hh
+              obtain ⟨f1, f2, f3, f4, f5, f6⟩ := ra_set_inuse_fields e1
+              obtain ⟨r1, r2⟩ := ra_grow_exhaust hi ga (h0 := h0) (unlink_chunk_frame e0').ents e1
+                (H := h1.tag "realloc-into-next-exhaust") rfl
+                (ra_delisted_unlink w e0' hcd f1 f2 f5 f6 f3 f4)
+              exact ⟨r1, r2.resized (by omega)⟩
+            · -- into-next-split
+              rename_i hrs
+              msimp at hh
+              obtain ⟨h1, e1, h2, e2, h3, e3, hh⟩ := hh
+              injection hh with hh
+              subst hh
+              exact ra_into_next_split hd hi ga hcd hnb16 (by omega) (by omega) (by omega) e0' e1 e2 e3
+        · msimp at hh
+          cases hh
 
 end TinyVerif.Dl
